@@ -362,6 +362,22 @@ def main():
                 proof_fail.append({"file": "coq/Props/%s.v" % pid, "lemma": "Print Assumptions run", "error": pa_out[-800:]})
             for a in foreign:
                 proof_fail.append({"file": "coq/Props/%s.v" % pid, "lemma": "axiom", "error": "theorem depends on axiom " + a})
+    coqchk_info = None
+    if tier == "thorough" and not proof_fail:
+        # independent re-check of the compiled proofs and of everything they depend on
+        with Lock("coq"):
+            rc2, out2 = sh(["timeout", "3000", "coqchk", "-silent", "-o", "-Q", ".", "X", "X.Props.%s" % pid], cwd=COQ, timeout=3100)
+        ax, sect = [], None
+        for line in out2.split("\n"):
+            if line.startswith("* "):
+                sect = line
+            elif sect and sect.startswith("* Axioms") and line.strip() and line.startswith("    "):
+                ax.append(line.strip())
+        bad_ax = [a for a in ax if not (a.startswith("Coq.Floats.") or a.startswith("Coq.Numbers.Cyclic.Int63.") or a.split(".")[-1] in ALLOWED_AXIOMS)]
+        unsafe = [l for l in out2.split("\n") if l.startswith("* ") and "Axioms" not in l and "<none>" not in l and ":" in l]
+        coqchk_info = {"exit": rc2, "axioms": ax, "foreign_axioms": bad_ax, "unsafe_sections": unsafe}
+        if rc2 != 0 or bad_ax or unsafe:
+            proof_fail.append({"file": "coq/Props/%s.v" % pid, "lemma": "coqchk", "error": (out2[-600:] if rc2 != 0 else "axioms %s unsafe %s" % (bad_ax, unsafe))})
     ob_files = ["Props/%s.v" % pid] + cfg.get("cone", [])
     obligations, ob_names = count_obligations(ob_files)
     failed_names = set(f["lemma"] for f in proof_fail)
@@ -484,6 +500,8 @@ def main():
         "broken_obligations": proof_fail[:10],
         "explanation": cfg.get("explanation", ""),
     }
+    if coqchk_info is not None:
+        cov["coqchk"] = coqchk_info
     if rep and rep.get("extra"):
         cov["extra"] = rep["extra"]
     ev = {"property_id": pid, "tier": tier, "seed": seed, "level": "proof", "coverage": cov,
